@@ -10,7 +10,9 @@ from .davdriver import DavSession, SLOTS
 # extension, and one name in both Unicode normal forms (decomposed as macOS sends it, and
 # precomposed) - two different resources
 ICS_NAMES = ["a.ics", "b.ics", "c.ics", "d e.ics", "E.ICS.ics", "UP.ICS", "Mixed.Ics",
-             "Rene\u0301.ics", "Ren\u00e9.ics"]
+             "Rene\u0301.ics", "Ren\u00e9.ics",
+             # a literal percent sign followed by two hex digits, and the name it would decode to
+             "ev%41.ics", "evA.ics"]
 VCF_NAMES = ["c.vcf", "d.vcf", "x y.vcf"]
 # members of other media types (stored as they are, never validated)
 OTHER_NAMES = ["notes.txt", "blob.bin"]
@@ -53,7 +55,7 @@ def gen_value(rng, allow_semicolon=True):
 
 DEFAULT_PROFILE = {
     "put": 30, "post": 5, "delete": 10, "mk": 4, "delcoll": 2, "proppatch": 6, "restart": 3,
-    "lock": 2, "get": 4, "multiget": 4, "reupload": 4,
+    "lock": 2, "get": 4, "multiget": 4, "reupload": 4, "uidquery": 1,
     "fault": 0.0,      # probability that a PUT/DELETE runs with an injected ENOSPC
     "cond": 0.35,      # probability that a PUT/DELETE carries a conditional header
     "invalid": 0.12,   # probability that a PUT body is from an invalid class
@@ -66,7 +68,7 @@ PROFILES = {
     "C01": {},
     "C02": {"put": 40, "reupload": 8, "proppatch": 8, "restart": 5, "grammar": 0.4, "external": 0.08, "multiget": 12, "get": 14, "cond": 0.5},
     "C03": {"cond": 0.85, "get": 12, "put": 40, "delete": 16},
-    "C06": {"put": 45, "delete": 14, "restart": 6, "post": 8, "uidheavy": True},
+    "C06": {"put": 45, "delete": 14, "restart": 6, "post": 8, "uidheavy": True, "uidquery": 8},
     "C07": {"delete": 18, "put": 34, "delcoll": 3, "mk": 5, "reupload": 6},
     "C08": {"proppatch": 14, "delete": 14, "reupload": 8, "restart": 5, "retype": 0.2},
     "C09": {"proppatch": 12, "lock": 6, "reupload": 8, "delete": 9, "untyped": 0.45, "len": 36, "put": 40,
@@ -105,6 +107,8 @@ def ics_pool(rng, uidheavy=False):
         # presentation variants of the first (same canonical content)
         pool.append(gamma.ics_event(variant=1, **base))
         pool.append(gamma.ics_event(variant=2, **base))
+        # the same UID carried by a component that is not an event
+        pool.append(gamma.ics_event(u, "Task " + tag, comp="VTODO", dtend=None))
     pool.append(gamma.ics_event(None, "no uid at all"))
     pool.append(gamma.ics_event("todo-1", "A task", comp="VTODO", dtend=None))
     return [(b, True) for b in pool]
@@ -154,6 +158,17 @@ def weighted(rng, table):
     return table[-1][0]
 
 
+def alpha_unescape(u):
+    from . import alpha
+    return alpha.unescape_text(u)
+
+
+def first_uid_of(data):
+    from . import alpha
+    u = alpha.first_uid(data)
+    return alpha.unescape_text(u) if u else ""
+
+
 def run_witness_session(steps, frontend="wsgi", prefix="/", backend="tree", principal="/user/"):
     """An explicit history (the witness of a listed finding): steps are [method name, args...]
     of DavSession, e.g. ["mk", "cal1", "calendar"], ["propupdate", "cal1", [["displayname", "x"]]]."""
@@ -171,7 +186,8 @@ def run_witness_session(steps, frontend="wsgi", prefix="/", backend="tree", prin
 
 def run_random_session(seed, prof, frontend="wsgi", prefix="/", backend="tree", audit_git=True, principal="/user/"):
     rng = random.Random(seed)
-    s = DavSession(frontend=frontend, prefix=prefix, backend=backend, audit_git=audit_git, principal=principal)
+    s = DavSession(frontend=frontend, prefix=prefix, backend=backend, audit_git=audit_git, principal=principal,
+                   index_threshold=rng.choice([None, None, 0, 1]))
     try:
         ics = ics_pool(rng, prof.get("uidheavy", False))
         vcf = vcf_pool()
@@ -196,8 +212,8 @@ def run_random_session(seed, prof, frontend="wsgi", prefix="/", backend="tree", 
                             how = "xmkcol"
                     s.mk(c, k, how=how, props=props)
         stored_opaque = {}
-        ops = [(k, prof[k]) for k in ("put", "post", "delete", "mk", "delcoll", "proppatch",
-                                      "restart", "lock", "get", "multiget", "reupload")]
+        ops = [(k, prof.get(k, 0)) for k in ("put", "post", "delete", "mk", "delcoll", "proppatch",
+                                             "restart", "lock", "get", "multiget", "reupload", "uidquery")]
         for _ in range(prof["len"]):
             op = weighted(rng, ops)
             c = rng.choice(slots) if rng.random() < 0.25 else rng.choice(slots[:1] + slots[-1:])
@@ -321,6 +337,19 @@ def run_random_session(seed, prof, frontend="wsgi", prefix="/", backend="tree", 
                     s.lock(c, False)
                 elif backend in ("tree", "treecfg"):
                     s.lock(c, True)
+            elif op == "uidquery":
+                # how clients look an object up by UID: repeated, so that a server that indexes
+                # frequent queries starts answering from its index
+                held = sorted({s.battr[m["b"]]["uid"] for m in live.values()
+                               if m.get("b") in s.battr and s.battr[m["b"]]["uid"]})
+                u = rng.choice(held) if held and rng.random() < 0.8 else alpha_unescape(rng.choice(UIDS + UIDS_MORE))
+                for _k in range(rng.choice([1, 2, 7, 8])):
+                    s.uidquery(c, u)
+                # ... and then writes an object with that UID (under another name, or the same)
+                cands = [(b, v) for (b, v) in ics if first_uid_of(b) == u]
+                if cands and rng.random() < 0.6:
+                    data, valid = rng.choice(cands)
+                    s.put(c, rng.choice(ICS_NAMES), data, valid=valid)
             elif op == "get":
                 n = rng.choice(sorted(live)) if live and rng.random() < 0.8 else rng.choice(ICS_NAMES)
                 s.get(c, n, inm=rng.choice(COND_CLASSES + [None]), head=rng.random() < 0.3)
